@@ -2719,6 +2719,8 @@ def distributed_shampoo(
       return root[:, :precond_dim], metrics
 
     def new_mi_pth_root(stats, exponents, padding_start, prev):
+      # Explains the failure if all layers are too small for compression_rank.
+      precond_dim(stats.shape[0])
       # padding_start == true unpacked gradient dimension size.
       should_compress = _should_compress(compression_rank, padding_start)
 
